@@ -698,6 +698,6 @@ func s16() scenario {
 func allScenarios() []scenario {
 	all := []scenario{s1(), s2(), s3(), s4(), s5(), s6a(), s6b(), s7(), s8(), s9(), s10(), s11(), s12(), s13(), s14(), s15(), s16(), s17(), s18(), s19(), s20(), s21(), s22()}
 	all = append(all, s23()...)
-	all = append(all, s24(), s25(), s26(), s27(), s28(), s29(), s30())
+	all = append(all, s24(), s25(), s26(), s27(), s28(), s29(), s30(), s31())
 	return all
 }
